@@ -286,6 +286,8 @@ _lead = st.one_of(st.sampled_from(["", "", " ", "  ", "    ", "\t"]), st.sampled
 _sep = st.one_of(st.sampled_from([" ", " ", " ", "  ", "\t"]), st.sampled_from(UNUSUAL_WS[:6]))
 _POS1 = [f for f in S.POS_FORMS if f.slots == 1]
 _SCRUB = [f for f in S.FORMS if f.mode in ("scrub", "either")]
+_PHS = ("Someone", "Somegroup", "Someview", "Foo", "PEERS", "example.com")
+_PH_FORMS = [f for f in _POS1 if any(ph_ in h_ for h_ in f.heads for ph_ in _PHS)]
 
 
 @st.composite
@@ -319,7 +321,15 @@ def _case(draw):
                 if prev and form.mode == "pos" and "text" in form.classes and not form.text_kw and form.reject is None:
                     v = draw(st.sampled_from(prev))
             enc_ = draw(st.sampled_from(S.ENCLOSINGS[:7])) if form.enclose and form.mode == "pos" and draw(st.booleans()) else ("", "")
-            s, spans = S.render(form, draw(st.integers(0, 20)), draw(st.integers(0, 5)), [v], enc_, "", "")
+            head_i = draw(st.integers(0, 20))
+            if form.mode == "pos" and draw(st.integers(0, 3)) == 0:
+                # a form whose line holds a name next to the secret (user name, group, peer): the places
+                # where the same text can stand twice on a line
+                form = draw(st.sampled_from(_PH_FORMS))
+                head_i = draw(st.sampled_from([i_ for i_, h_ in enumerate(form.heads) if any(ph_ in h_ for ph_ in _PHS)]))
+                v = draw(S.secret_for(form))[1]
+                enc_ = ("", "")
+            s, spans = S.render(form, head_i, draw(st.integers(0, 5)), [v], enc_, "", "")
             strict = None
             if form.mode == "pos" and not any(ch.isspace() for ch in v):
                 st_ = s.strip()
@@ -334,8 +344,8 @@ def _case(draw):
                     strict["enc"] = list(enc_)  # quotes / brackets around the secret are not part of it: kept
             inner = []
             same_text = False
-            for ph in ("Someone", "Somegroup", "Someview", "Foo", "PEERS", "example.com"):
-                if ph in s and ph not in v and draw(st.integers(0, 5)) == 0 and not any(ch.isspace() for ch in v) and len(v) >= 4:
+            for ph in _PHS:
+                if ph in s and ph not in v and draw(st.integers(0, 2)) == 0 and not any(ch.isspace() for ch in v) and len(v) >= 4:
                     # the same text as the secret earlier on the line (user name == password):
                     # only the secret's own position may change
                     s = s.replace(ph, v)
